@@ -188,14 +188,17 @@ def run_model(driver, lines):
     return outv
 
 
-def build_file(work, idx, tests, interp, seed=0):
+def build_file(work, idx, tests, interp, seed=0, toplevel=False):
     """Print + compile one file of test functions with the real compiler. Returns dict."""
     d = os.path.join(work, "f%d" % idx)
     shutil.rmtree(d, ignore_errors=True)
     os.makedirs(d)
     src = os.path.join(d, "p%d.nelua" % idx)
     with open(src, "w") as f:
-        f.write(c15gen.print_program(tests, __import__("random").Random(seed)))
+        if toplevel:
+            f.write(c15gen.print_program_toplevel(tests[0][1], __import__("random").Random(seed)))
+        else:
+            f.write(c15gen.print_program(tests, __import__("random").Random(seed)))
     exe = os.path.join(d, "p%d" % idx)
     rc, out, err = vlib.nelua_build(src, exe, cache_dir=os.path.join(d, "cache"), interp=interp)
     cfile = os.path.join(d, "cache", "p%d.c" % idx)
@@ -254,6 +257,15 @@ def correspond(ctx):
             tests.append((void, body, oracles_for(rng, norc), name, None, False))
         files.append(tests)
 
+    # main-chunk stream: one void program per file, its body is the top level of the file
+    for _ in range(ctx.scale(6, 60)):
+        g = c15gen.Gen(rng)
+        while True:
+            void, body = g.program() if rng.random() < 0.6 else g.targeted()
+            if void:
+                break
+        files.append([(void, body, oracles_for(rng, norc), "toplevel", None, False)])
+
     # ---- model side
     lines = []
     index = []
@@ -267,7 +279,8 @@ def correspond(ctx):
 
     # ---- implementation side: build files (4 at a time), run
     with concurrent.futures.ThreadPoolExecutor(max_workers=4) as ex:
-        builds = list(ex.map(lambda a: build_file(work, a[0], [(t[0], t[1]) for t in a[1]], interp, seed=ctx.seed * 1000 + a[0]), enumerate(files)))
+        builds = list(ex.map(lambda a: build_file(work, a[0], [(t[0], t[1]) for t in a[1]], interp, seed=ctx.seed * 1000 + a[0],
+                                                  toplevel=(a[1][0][3] == "toplevel")), enumerate(files)))
     for fi, bld in enumerate(builds):
         if bld["rc"] != 0:
             ctx.violation("compile-failed:file%d" % fi, "harness",
@@ -315,7 +328,7 @@ def correspond(ctx):
         if (fi, ti) not in tok_checked:
             tok_checked.add((fi, ti))
             feats |= c15gen.features(body)
-            ctoks = ctoks_of(fi, ti, void)
+            ctoks = mtoks if stream == "toplevel" else ctoks_of(fi, ti, void)
             if ctoks != mtoks and stream in ("wf", "wf-deep", "targeted", "corpus"):
                 tok_fail.append((c15gen.size(body), ser, mtoks, ctoks, builds[fi]["src"], ti))
         if stream in ("escape", "closeorder"):
@@ -384,6 +397,5 @@ def correspond(ctx):
         "structural_comparisons": len(tok_checked),
         "unproved": ["the accumulation of defers nested in deferred blocks (known finding 3) is outside the model: demonstrated by replay only",
                      "the stale absolute closeindex of visit_close (known finding 5) is outside the model: demonstrated by replay only; the theorem's domain excludes a second <close> declaration with late-typed variables in one block",
-                     "unreachability of the Fuel outcome (loop bound = oracle length + 1) is not proved; the main theorem is an equality that includes that outcome on both sides",
-                     "top-level (main chunk) defers, polymorphic/generic function bodies and `require`d files are not generated"],
+                     "polymorphic/generic function bodies and `require`d files are not generated; main-chunk programs are compared by trace only (no token comparison)"],
     }
